@@ -12,7 +12,8 @@ THEOREMS = ["GrpcProofs.C40." + t for t in (
     "true_count_le_counter", "counter_equals_true_count_partial",
     "counter_equals_true_count_counterexample_removed", "counter_equals_true_count_counterexample_reejected",
     "uneject_rule_step", "uneject_after_rule", "uneject_only_in_timer_or_noop",
-    "ejected_looks_TF_to_child_partial", "ejected_looks_TF_to_child_counterexample", "noop_config_unejects_all")]
+    "ejected_looks_TF_to_child_partial", "scw_ejected_iff_endpoint_ejected", "ejected_endpoint_never_looks_healthy",
+    "ejected_looks_TF_to_child_counterexample", "noop_config_unejects_all", "noop_config_unejects_all_subconns")]
 DESIGN_REF = "DESIGN.md section 8, C40"
 TECHNIQUE = ("Lean 4 theorems over an executable model of the balancer (exact rational success-rate criterion, bit-exact binary64 for the "
              "two percentage comparisons, map order and random draws as explicit arguments) + T2 correspondence: the real balancer under "
